@@ -148,7 +148,9 @@ class Graph:
                         if rx.search(d) or rx.search(c):
                             out.append(dict(kind=k, what=d + (" -> " + c if c != d else ""), body=bp, block=i, sp=t.get("sp"), mac=t.get("mac") or [], term=t, mir=mir, cond=cond))
                             break
-        return out
+        # `debug_assert*!` and everything evaluated inside it is absent from release builds: outside the panic inventory's
+        # scope (DESIGN section 7); arithmetic overflow checks, which *wrap* in release builds, stay in
+        return [s for s in out if not any(m.split("::")[-1] in ("debug_assert", "debug_assert_eq", "debug_assert_ne") for m in s["mac"])]
 
     def cycles(self, owners):
         """strongly connected components with a cycle, restricted to `owners`"""
@@ -245,6 +247,17 @@ def cfg_succ(mir):
             s = [t["target"]]
         elif k == "switch":
             s = [b for _, b in t["targets"]] + [t["otherwise"]]
+            # a switch on a constant assigned in the same block (`cfg!(debug_assertions)` inside debug_assert!) has one live edge
+            dl = (t.get("discr") or {}).get("p", {}).get("l") if (t.get("discr") or {}).get("o") in ("move", "copy") else None
+            if dl is not None and not (t["discr"]["p"].get("pr")):
+                val = None
+                for st in blk["stmts"]:
+                    if st["lhs"]["l"] == dl and not st["lhs"].get("pr"):
+                        a = st["r"].get("a") if st["r"].get("rv") == "use" else None
+                        val = a.get("bits") if isinstance(a, dict) and a.get("o") == "const" and "bits" in a else None
+                if val is not None:
+                    hit = [b for v, b in t["targets"] if v == val]
+                    s = hit[:1] if hit else [t["otherwise"]]
         elif k in ("call", "assert", "drop"):
             if t.get("target") is not None:
                 s = [t["target"]]
@@ -269,6 +282,8 @@ def dominators(mir):
             continue
         reach.add(x)
         st.extend(succ[x])
+    # predecessors that cannot be reached from the entry (the dead edge of a folded constant switch) are not predecessors
+    pred = [[p for p in ps if p in reach] for ps in pred]
     dom = {i: set(reach) for i in reach}
     dom[0] = {0}
     changed = True
